@@ -432,6 +432,13 @@ theorem stepExit_G4 {r : Fin n} {s s' : St n} (h : G4 r s) (v : Fin n) (hs : ste
       fun w hw hwr hact => h.a w (halive w hw) hwr hact⟩
   · cases hs
 
+theorem stepTend_G4 {r : Fin n} {s s' : St n} (h : G4 r s) (v : Fin n) (hs : stepTend r s v = some s') : G4 r s' := by
+  unfold stepTend at hs
+  split at hs
+  · rename_i hg; cases hs
+    exact h.helper_move v hg.1 hg.2.1 .gone (s.jobId v) rfl rfl rfl rfl rfl rfl rfl (by simp) rfl (Or.inr rfl) (by intro e; cases e)
+  · cases hs
+
 theorem init_G4 (r : Fin n) : G4 r (init r) := by
   have hch : ∀ a b, isChild (init r) a b = false := by intro a b; simp [isChild, init]
   refine ⟨?_, ?_, ?_, ?_, ?_, ?_, ?_, ?_, ?_, ?_⟩
@@ -456,6 +463,7 @@ theorem step_G4 {r : Fin n} {s s' : St n} (h1 : G1 r s) (h : G4 r s) (e : Ev n) 
   | searchResult v => exact stepSearchResult_G4 h1 h v hs
   | searchLeave v m => exact stepSearchLeave_G4 h1 h v m hs
   | spawn v p => exact stepSpawn_G4 h v p hs
+  | tend v => exact stepTend_G4 h v hs
   | exit v => exact stepExit_G4 h v hs
   | eRdPre x => exact stepERdPre_G4 h x hs
   | eRd x b => exact stepERd_G4 h x b hs
